@@ -39,4 +39,4 @@ impl KempstonJoy {
 
 #[cfg(kani)]
 #[path = "/verif/hooks/core/kempston_joy.rs"]
-mod verif_hooks;
+pub(crate) mod verif_hooks;
